@@ -225,8 +225,9 @@ def write_hash_list(hash_list: MHLHashList, file_path: str):
         os.mkdir(directory_path)
 
     # write to a temporary sibling (not picked up as a generation by the history loader) and move it into place
-    # once it is complete, so an interrupted run never leaves a half-written manifest behind
-    temp_file_path = file_path + ".tmp"
+    # once it is complete, so an interrupted run never leaves a half-written manifest behind. The temporary name is
+    # short: the manifest name itself may be as long as the file system allows (it contains the folder name)
+    temp_file_path = os.path.join(directory_path, "ascmhl_hashlist.tmp")
     file = open(temp_file_path, "wb")
     file.write(b'<?xml version="1.0" encoding="UTF-8"?>\n<hashlist version="2.0" xmlns="urn:ASC:MHL:v2.0">\n')
     current_indent = "  "
